@@ -3,10 +3,53 @@
    SetVote / AddVote / outcomeIndex / Outcome for every enumeration of the Votes map, and the
    four DKGInstance.Register*Msg functions as they are used by the model's handlers.  The
    theorems of Proofs/AppDet.v (replicas agree) and Proofs/AppGov.v (quorums) about votings
-   therefore speak about the code as it is now. *)
+   therefore speak about the code as it is now.
+
+   The proofs do not depend on the exact shape of the generated text: every loop body is
+   compared with its specification POINTWISE (a premise discharged by case analysis over the
+   conditions that occur, [shape]), so equivalent spellings of the source - swapped branches,
+   negated or reordered guards, hoisted locals, index loops - leave them intact. *)
 From Coq Require Import List Arith NArith ZArith Bool Lia Permutation.
 From Verif Require Import Lib.Bytes Lib.Assoc Lib.Loops Model.App Generated.VotingFuns Proofs.AppDet.
 Import ListNotations.
+
+(* ---------------------------------------------------------------- case analysis *)
+
+Ltac split_if :=
+  match goal with
+  | |- context [if ?b then _ else _] =>
+      let rec atom b :=
+        lazymatch b with
+        | negb ?c => atom c
+        | andb ?c _ => atom c
+        | orb ?c _ => atom c
+        | _ => destruct b eqn:?
+        end in
+      atom b; cbn [negb andb orb]
+  end.
+
+Ltac to_prop :=
+  repeat match goal with
+  | H : bytes_eqb _ _ = true |- _ => apply bytes_eqb_eq in H
+  | H : bytes_eqb _ _ = false |- _ => apply bytes_eqb_neq in H
+  | H : Z.leb _ _ = true |- _ => apply Z.leb_le in H
+  | H : Z.leb _ _ = false |- _ => apply Z.leb_gt in H
+  | H : Z.ltb _ _ = true |- _ => apply Z.ltb_lt in H
+  | H : Z.ltb _ _ = false |- _ => apply Z.ltb_ge in H
+  | H : N.eqb _ _ = true |- _ => apply N.eqb_eq in H
+  | H : N.eqb _ _ = false |- _ => apply N.eqb_neq in H
+  | H : Nat.eqb _ _ = true |- _ => apply Nat.eqb_eq in H
+  | H : Nat.eqb _ _ = false |- _ => apply Nat.eqb_neq in H
+  end.
+
+Ltac shape :=
+  cbv zeta; cbn [fst snd]; repeat split_if;
+  try reflexivity; try congruence;
+  to_prop; subst; try reflexivity; try congruence; try lia; try (exfalso; congruence); try (exfalso; lia).
+
+Lemma fold_left_pointwise {A B} (f g : A -> B -> A) l a :
+  (forall x y, f x y = g x y) -> fold_left f l a = fold_left g l a.
+Proof. intros H. revert a. induction l as [|y r IH]; intros a; simpl; [reflexivity|]. rewrite H. apply IH. Qed.
 
 (* ---------------------------------------------------------------- SetVote / AddVote *)
 
@@ -14,27 +57,27 @@ Section Voting.
   Context {T : Type}.
   Variable teqb : T -> T -> bool.
 
-  Lemma find_first_find_cand (c : T) (g : nat -> voting T) l : forall i,
-    find_first_from (fun j c' => if teqb c c' then Some (g j) else None) i l =
-    option_map g (find_cand teqb c l i).
+  Lemma ff_find_cand (f : nat -> T -> option (voting T)) (c : T) (g : nat -> voting T) l :
+    (forall j x, f j x = if teqb c x then Some (g j) else None) ->
+    forall i, find_first_from f i l = option_map g (find_cand teqb c l i).
   Proof.
-    induction l as [|x r IH]; intros i; cbn [find_first_from find_cand]; [reflexivity|].
-    destruct (teqb c x); [reflexivity|]. apply IH.
+    intros H. induction l as [|x r IH]; intros i; cbn [find_first_from find_cand]; [reflexivity|].
+    rewrite H. destruct (teqb c x); [reflexivity|]. apply IH.
   Qed.
 
   Lemma gen_set_vote_agrees v sender c : gen_set_vote teqb v sender c = set_vote teqb v sender c.
   Proof.
     unfold gen_set_vote, set_vote, find_first_idx. cbv zeta.
-    rewrite (find_first_find_cand c (fun i => mkVoting (aset (v_votes v) sender i) (v_cands v))).
+    erewrite (ff_find_cand _ c (fun i => mkVoting (aset (v_votes v) sender i) (v_cands v))); [|intros; shape].
     destruct (find_cand teqb c (v_cands v) 0); cbn [option_map]; [reflexivity|].
-    cbn [v_votes v_cands]. rewrite app_length. cbn [length].
-    replace (length (v_cands v) + 1 - 1)%nat with (length (v_cands v)) by lia. reflexivity.
+    cbn [v_votes v_cands].
+    first [reflexivity | repeat f_equal; rewrite ?app_length; cbn [length]; lia].
   Qed.
 
   Lemma gen_add_vote_agrees v sender c : gen_add_vote teqb v sender c = add_vote teqb v sender c.
   Proof.
-    unfold gen_add_vote, add_vote. cbv zeta.
-    destruct (amem (v_votes v) sender); [reflexivity|]. rewrite gen_set_vote_agrees. reflexivity.
+    unfold gen_add_vote, add_vote. cbv zeta. rewrite ?gen_set_vote_agrees.
+    destruct (amem (v_votes v) sender); cbn [negb]; reflexivity.
   Qed.
 
   (* ---------------------------------------------------------------- outcomeIndex *)
@@ -79,15 +122,16 @@ Section Voting.
   Lemma counts_ok_nil : counts_ok [].
   Proof. intros i. unfold nmem. cbn. discriminate. Qed.
 
-  Lemma find_first_meeting (A : Type) (numVotes : nmap) (e : amap nat) req :
+  Lemma ff_meeting (A : Type) (f : nat -> A -> option (option nat)) (numVotes : nmap) (e : amap nat) req :
     (forall i, nget0 numVotes i = Z.of_nat (tally e i) /\ nmem numVotes i = negb (Nat.eqb (tally e i) 0)) ->
+    (forall index x, f index x =
+        if nmem numVotes index && Z.leb req (nget0 numVotes index) then Some (Some index) else None) ->
     forall (l : list A) i,
-    find_first_from (fun (index : nat) (_ : A) =>
-        if nmem numVotes index && Z.leb req (nget0 numVotes index) then Some (Some index) else None) i l =
+    find_first_from f i l =
     match first_index_meeting e req i (length l) with Some j => Some (Some j) | None => None end.
   Proof.
-    intros H l. induction l as [|x r IH]; intros i; cbn [find_first_from first_index_meeting length]; [reflexivity|].
-    destruct (H i) as [Hg Hm]. rewrite Hg, Hm.
+    intros H Hf l. induction l as [|x r IH]; intros i; cbn [find_first_from first_index_meeting length]; [reflexivity|].
+    rewrite Hf. destruct (H i) as [Hg Hm]. rewrite Hg, Hm.
     destruct (negb (Nat.eqb (tally e i) 0) && (req <=? Z.of_nat (tally e i))%Z); [reflexivity|]. apply IH.
   Qed.
 
@@ -95,11 +139,12 @@ Section Voting.
     gen_outcome_index v e req = first_index_meeting e req 0 (length (v_cands v)).
   Proof.
     unfold gen_outcome_index, find_first_idx. cbv zeta.
-    change (fold_left _ e []) with (fold_left count_step e []).
+    erewrite (fold_left_pointwise _ count_step); [|intros; reflexivity].
     destruct (count_fold e [] counts_ok_nil) as [_ H].
-    rewrite (find_first_meeting T (fold_left count_step e []) e req).
+    erewrite (ff_meeting T _ (fold_left count_step e []) e req).
     - destruct (first_index_meeting e req 0 (length (v_cands v))); reflexivity.
     - intros i. destruct (H i) as [Hg Hm]. rewrite Hg, Hm. unfold nmem, nget0. cbn. split; [lia|reflexivity].
+    - intros; shape.
   Qed.
 
   (* the translated outcomeIndex / Outcome are the model's, for the enumeration the model is given *)
@@ -107,9 +152,14 @@ Section Voting.
     gen_outcome_index v (enum _ (v_votes v)) req = outcome_index enum v req.
   Proof. apply gen_outcome_index_is_first_meeting. Qed.
 
+  Lemma gen_outcome_via_index (v : voting T) e req :
+    gen_outcome v e req =
+    match gen_outcome_index v e req with None => None | Some i => Some (nth_error (v_cands v) i) end.
+  Proof. unfold gen_outcome. cbv zeta. destruct (gen_outcome_index v e req); reflexivity. Qed.
+
   Lemma gen_outcome_agrees (enum : enumerator) (v : voting T) req :
     gen_outcome v (enum _ (v_votes v)) req = outcome enum v req.
-  Proof. unfold gen_outcome, outcome. rewrite gen_outcome_index_agrees. destruct (outcome_index enum v req); reflexivity. Qed.
+  Proof. rewrite gen_outcome_via_index. unfold outcome. rewrite gen_outcome_index_agrees. destruct (outcome_index enum v req); reflexivity. Qed.
 
   (* what replica agreement needs, stated on the translated function: any two enumerations of
      the Votes map give the same outcome *)
@@ -119,12 +169,12 @@ Section Voting.
 
   Lemma gen_outcome_order_free (v : voting T) e1 e2 req :
     Permutation e1 e2 -> gen_outcome v e1 req = gen_outcome v e2 req.
-  Proof. intros Hp. unfold gen_outcome. rewrite (gen_outcome_index_order_free v e1 e2 req Hp). reflexivity. Qed.
+  Proof. intros Hp. rewrite !gen_outcome_via_index. rewrite (gen_outcome_index_order_free v e1 e2 req Hp). reflexivity. Qed.
 
   (* Outcome never indexes Candidates out of range (Some None would be the index panic) *)
   Lemma gen_outcome_no_panic (v : voting T) e req : gen_outcome v e req <> Some None.
   Proof.
-    unfold gen_outcome. rewrite gen_outcome_index_is_first_meeting.
+    rewrite gen_outcome_via_index. rewrite gen_outcome_index_is_first_meeting.
     destruct (first_index_meeting e req 0 (length (v_cands v))) eqn:E; [|discriminate].
     apply first_index_meeting_bound in E. intros H. injection H as H.
     apply nth_error_None in H. lia.
@@ -133,33 +183,27 @@ End Voting.
 
 (* ---------------------------------------------------------------- DKGInstance.Register*Msg *)
 
-Lemma find_first_const_ext {A R} (f g : A -> option R) l i :
-  (forall x, f x = g x) -> find_first_from (fun _ x => f x) i l = find_first_from (fun _ x => g x) i l.
-Proof. intros H. apply find_first_from_ext. intros _ x. apply H. Qed.
+(* one receiver of RegisterPolyEvalMsg's first loop *)
+Definition recv_step (d : dkg) (sender r : addr) : option N :=
+  if negb (is_keyper (d_config d) r) then Some code_error
+  else if bytes_eqb r sender then Some code_error
+  else if mem_pair sender r (d_evals d) then Some code_seen
+  else None.
 
-(* the receiver loop of RegisterPolyEvalMsg answers what check_receivers answers *)
-Lemma poly_eval_search d sender rs : forall i,
-  find_first_from (fun (_ : nat) receiver =>
-      if negb (is_keyper (d_config d) receiver) then Some (d, Some code_error)
-      else if bytes_eqb receiver sender then Some (d, Some code_error)
-      else if pair_mem (sender, receiver) (d_evals d) then Some (d, Some code_seen)
-      else None) i rs =
+Lemma poly_eval_search (f : nat -> addr -> option (dkg * option N)) d sender rs :
+  (forall j r, f j r = option_map (fun code => (d, Some code)) (recv_step d sender r)) ->
+  forall i, find_first_from f i rs =
   option_map (fun code => (d, Some code)) (check_receivers (d_config d) sender (d_evals d) rs).
 Proof.
-  induction rs as [|r t IH]; intros i; cbn [find_first_from check_receivers]; [reflexivity|].
+  intros H. induction rs as [|r t IH]; intros i; cbn [find_first_from check_receivers]; [reflexivity|].
+  rewrite H. unfold recv_step.
   destruct (negb (is_keyper (d_config d) r)); [reflexivity|].
   destruct (bytes_eqb r sender); [reflexivity|].
-  unfold pair_mem. cbn [fst snd]. destruct (mem_pair sender r (d_evals d)); [reflexivity|]. apply IH.
+  destruct (mem_pair sender r (d_evals d)); [reflexivity|]. apply IH.
 Qed.
 
 Lemma mem_pair_app s r l l' : mem_pair s r (l ++ l') = mem_pair s r l || mem_pair s r l'.
 Proof. induction l as [|[a b] t IH]; cbn [mem_pair app]; [reflexivity|]. rewrite IH, orb_assoc. reflexivity. Qed.
-
-Lemma mem_pair_map sender r t : mem_pair sender r (map (fun x => (sender, x)) t) = mem_addr r t.
-Proof.
-  induction t as [|x t IH]; cbn [map mem_pair mem_addr]; [reflexivity|].
-  rewrite IH, bytes_eqb_refl. reflexivity.
-Qed.
 
 Lemma check_receivers_none_fresh c sender seen rs :
   check_receivers c sender seen rs = None -> forall r, mem_addr r rs = true -> mem_pair sender r seen = false.
@@ -172,13 +216,15 @@ Proof.
   apply bytes_eqb_eq in Hr. subst r. exact E.
 Qed.
 
+Definition eval_write (sender : addr) (d : dkg) (receiver : addr) : dkg :=
+  mkDkg (d_config d) (d_eon d) (d_success d) (set_add pair_mem (d_evals d) (sender, receiver))
+        (d_commits d) (d_accs d) (d_apos d).
+
 (* the write loop: with distinct receivers none of which is present, set_add appends *)
 Lemma poly_eval_writes sender : forall rs d,
   addrs_unique rs = true ->
   (forall r, mem_addr r rs = true -> mem_pair sender r (d_evals d) = false) ->
-  fold_left (fun d receiver =>
-      mkDkg (d_config d) (d_eon d) (d_success d) (set_add pair_mem (d_evals d) (sender, receiver))
-            (d_commits d) (d_accs d) (d_apos d)) rs d =
+  fold_left (eval_write sender) rs d =
   mkDkg (d_config d) (d_eon d) (d_success d) (d_evals d ++ map (fun r => (sender, r)) rs)
         (d_commits d) (d_accs d) (d_apos d).
 Proof.
@@ -187,9 +233,10 @@ Proof.
   - cbn [addrs_unique] in Hu. apply andb_true_iff in Hu as [Hx Hu].
     assert (Hfx : mem_pair sender x (d_evals d) = false).
     { apply Hf. cbn [mem_addr]. rewrite bytes_eqb_refl. reflexivity. }
-    assert (Hs : set_add pair_mem (d_evals d) (sender, x) = d_evals d ++ [(sender, x)]).
-    { unfold set_add, pair_mem. cbn [fst snd]. rewrite Hfx. reflexivity. }
-    cbn beta. rewrite Hs.
+    assert (Hs : eval_write sender d x = mkDkg (d_config d) (d_eon d) (d_success d) (d_evals d ++ [(sender, x)])
+                                              (d_commits d) (d_accs d) (d_apos d)).
+    { unfold eval_write, set_add, pair_mem. cbn [fst snd]. rewrite Hfx. reflexivity. }
+    rewrite Hs.
     rewrite IH; cbn [d_config d_eon d_success d_evals d_commits d_accs d_apos].
     + rewrite <- app_assoc. reflexivity.
     + exact Hu.
@@ -200,11 +247,8 @@ Proof.
       apply bytes_eqb_eq in E. subst r. rewrite Hr in Hx. discriminate.
 Qed.
 
-(* RegisterPolyEvalMsg as the model's handler uses it (the receivers were found distinct by the
-   parser before) *)
-Lemma gen_register_poly_eval_agrees d eon sender rs :
-  addrs_unique rs = true ->
-  gen_register_poly_eval d eon sender rs =
+(* the model's path of a DKG message through its Register function *)
+Definition poly_eval_spec d eon sender rs : dkg * option N :=
   if negb (N.eqb eon (d_eon d)) then (d, Some code_error)
   else if negb (is_keyper (d_config d) sender) then (d, Some code_error)
   else match check_receivers (d_config d) sender (d_evals d) rs with
@@ -212,71 +256,107 @@ Lemma gen_register_poly_eval_agrees d eon sender rs :
        | None => (mkDkg (d_config d) (d_eon d) (d_success d) (d_evals d ++ map (fun r => (sender, r)) rs)
                         (d_commits d) (d_accs d) (d_apos d), None)
        end.
+
+(* the generated function up to the write loop (no premise on the receivers) *)
+Lemma gen_register_poly_eval_shape d eon sender rs :
+  gen_register_poly_eval d eon sender rs =
+  if negb (N.eqb eon (d_eon d)) then (d, Some code_error)
+  else if negb (is_keyper (d_config d) sender) then (d, Some code_error)
+  else match check_receivers (d_config d) sender (d_evals d) rs with
+       | Some code => (d, Some code)
+       | None => (fold_left (eval_write sender) rs d, None)
+       end.
 Proof.
-  intros Hu. unfold gen_register_poly_eval, find_first_idx. cbv zeta.
+  unfold gen_register_poly_eval, find_first_idx. cbv zeta.
+  destruct (negb (N.eqb eon (d_eon d))) eqn:E1; [revert E1; shape|].
+  destruct (negb (is_keyper (d_config d) sender)) eqn:E2; [revert E1 E2; shape|].
+  repeat match goal with |- context [if ?b then _ else _] =>
+    match b with
+    | negb (N.eqb eon (d_eon d)) => rewrite E1
+    | negb (is_keyper (d_config d) sender) => rewrite E2
+    end end.
+  erewrite (poly_eval_search _ d sender rs); [|intros; unfold recv_step, pair_mem; shape].
+  destruct (check_receivers (d_config d) sender (d_evals d) rs); cbn [option_map]; [reflexivity|].
+  erewrite (fold_left_pointwise _ (eval_write sender)); [reflexivity|intros; reflexivity].
+Qed.
+
+Lemma gen_register_poly_eval_agrees d eon sender rs :
+  addrs_unique rs = true ->
+  gen_register_poly_eval d eon sender rs = poly_eval_spec d eon sender rs.
+Proof.
+  intros Hu. rewrite gen_register_poly_eval_shape. unfold poly_eval_spec.
   destruct (negb (N.eqb eon (d_eon d))); [reflexivity|].
   destruct (negb (is_keyper (d_config d) sender)); [reflexivity|].
-  rewrite poly_eval_search.
-  destruct (check_receivers (d_config d) sender (d_evals d) rs) eqn:E; cbn [option_map]; [reflexivity|].
+  destruct (check_receivers (d_config d) sender (d_evals d) rs) eqn:E; [reflexivity|].
   rewrite poly_eval_writes; [reflexivity|exact Hu|].
   exact (check_receivers_none_fresh _ _ _ _ E).
 Qed.
 
-Lemma gen_register_poly_commitment_agrees d eon sender :
-  gen_register_poly_commitment d eon sender =
+Definition poly_commitment_spec d eon sender : dkg * option N :=
   if negb (N.eqb eon (d_eon d)) then (d, Some code_error)
   else if negb (is_keyper (d_config d) sender) then (d, Some code_error)
   else if mem_addr sender (d_commits d) then (d, Some code_seen)
   else (mkDkg (d_config d) (d_eon d) (d_success d) (d_evals d) (d_commits d ++ [sender]) (d_accs d) (d_apos d), None).
-Proof.
-  unfold gen_register_poly_commitment. cbv zeta.
-  destruct (negb (N.eqb eon (d_eon d))); [reflexivity|].
-  destruct (negb (is_keyper (d_config d) sender)); [reflexivity|].
-  unfold set_add. destruct (mem_addr sender (d_commits d)); reflexivity.
-Qed.
 
-Lemma others_search d sender l (flip : bool) : forall i,
-  find_first_from (fun (_ : nat) a =>
-      if negb (is_keyper (d_config d) a) then Some (d, Some code_error)
-      else if bytes_eqb sender a then Some (d, Some code_error)
-      else None) i l =
+Lemma gen_register_poly_commitment_agrees d eon sender :
+  gen_register_poly_commitment d eon sender = poly_commitment_spec d eon sender.
+Proof. unfold gen_register_poly_commitment, poly_commitment_spec, set_add. shape. Qed.
+
+(* one element of the "others" loop of accusations and apologies *)
+Lemma others_search (f : nat -> addr -> option (dkg * option N)) d sender l :
+  (forall j a, f j a = if is_keyper (d_config d) a && negb (bytes_eqb sender a) then None
+                       else Some (d, Some code_error)) ->
+  forall i, find_first_from f i l =
   if check_others (d_config d) sender l then None else Some (d, Some code_error).
 Proof.
-  induction l as [|a t IH]; intros i; cbn [find_first_from check_others]; [reflexivity|].
+  intros H. induction l as [|a t IH]; intros i; cbn [find_first_from check_others]; [reflexivity|].
+  rewrite H.
   destruct (is_keyper (d_config d) a); cbn [negb andb]; [|reflexivity].
   destruct (bytes_eqb sender a); cbn [negb andb]; [reflexivity|]. apply IH.
 Qed.
 
-Lemma gen_register_accusation_agrees d eon sender accused :
-  gen_register_accusation d eon sender accused =
+Definition accusation_spec d eon sender accused : dkg * option N :=
   if negb (N.eqb eon (d_eon d)) then (d, Some code_error)
   else if negb (is_keyper (d_config d) sender) then (d, Some code_error)
   else if negb (check_others (d_config d) sender accused) then (d, Some code_error)
   else if mem_addr sender (d_accs d) then (d, Some code_seen)
   else (mkDkg (d_config d) (d_eon d) (d_success d) (d_evals d) (d_commits d) (d_accs d ++ [sender]) (d_apos d), None).
-Proof.
-  unfold gen_register_accusation, find_first_idx. cbv zeta.
-  destruct (negb (N.eqb eon (d_eon d))); [reflexivity|].
-  destruct (negb (is_keyper (d_config d) sender)); [reflexivity|].
-  rewrite (others_search d sender accused true).
-  destruct (check_others (d_config d) sender accused); cbn [negb]; [|reflexivity].
-  unfold set_add. destruct (mem_addr sender (d_accs d)); reflexivity.
-Qed.
 
-Lemma gen_register_apology_agrees d eon sender accusers :
-  gen_register_apology d eon sender accusers =
+Definition apology_spec d eon sender accusers : dkg * option N :=
   if negb (N.eqb eon (d_eon d)) then (d, Some code_error)
   else if negb (is_keyper (d_config d) sender) then (d, Some code_error)
   else if negb (check_others (d_config d) sender accusers) then (d, Some code_error)
   else if mem_addr sender (d_apos d) then (d, Some code_seen)
   else (mkDkg (d_config d) (d_eon d) (d_success d) (d_evals d) (d_commits d) (d_accs d) (d_apos d ++ [sender]), None).
+
+Lemma gen_register_accusation_agrees d eon sender accused :
+  gen_register_accusation d eon sender accused = accusation_spec d eon sender accused.
 Proof.
-  unfold gen_register_apology, find_first_idx. cbv zeta.
-  destruct (negb (N.eqb eon (d_eon d))); [reflexivity|].
-  destruct (negb (is_keyper (d_config d) sender)); [reflexivity|].
-  rewrite (others_search d sender accusers true).
-  destruct (check_others (d_config d) sender accusers); cbn [negb]; [|reflexivity].
-  unfold set_add. destruct (mem_addr sender (d_apos d)); reflexivity.
+  unfold gen_register_accusation, accusation_spec, find_first_idx, set_add. cbv zeta.
+  destruct (negb (N.eqb eon (d_eon d))) eqn:E1; [revert E1; shape|].
+  destruct (negb (is_keyper (d_config d) sender)) eqn:E2; [revert E1 E2; shape|].
+  repeat match goal with |- context [if ?b then _ else _] =>
+    match b with
+    | negb (N.eqb eon (d_eon d)) => rewrite E1
+    | negb (is_keyper (d_config d) sender) => rewrite E2
+    end end.
+  erewrite (others_search _ d sender accused); [|intros; shape].
+  destruct (check_others (d_config d) sender accused); cbn [negb]; [|reflexivity]. shape.
+Qed.
+
+Lemma gen_register_apology_agrees d eon sender accusers :
+  gen_register_apology d eon sender accusers = apology_spec d eon sender accusers.
+Proof.
+  unfold gen_register_apology, apology_spec, find_first_idx, set_add. cbv zeta.
+  destruct (negb (N.eqb eon (d_eon d))) eqn:E1; [revert E1; shape|].
+  destruct (negb (is_keyper (d_config d) sender)) eqn:E2; [revert E1 E2; shape|].
+  repeat match goal with |- context [if ?b then _ else _] =>
+    match b with
+    | negb (N.eqb eon (d_eon d)) => rewrite E1
+    | negb (is_keyper (d_config d) sender) => rewrite E2
+    end end.
+  erewrite (others_search _ d sender accusers); [|intros; shape].
+  destruct (check_others (d_config d) sender accusers); cbn [negb]; [|reflexivity]. shape.
 Qed.
 
 (* The model's handlers, rebuilt around the translated Register functions, are the model's
@@ -295,7 +375,7 @@ Lemma handle_poly_eval_via_generated s sender eon receivers evals d :
                (code_ok, [EvPolyEval sender eon receivers evals]).
 Proof.
   intros H1 H2 H3 H4. unfold handle_poly_eval. rewrite H1, H2, H3, H4. cbn [negb].
-  rewrite gen_register_poly_eval_agrees by exact H3.
+  rewrite gen_register_poly_eval_agrees by exact H3. unfold poly_eval_spec.
   destruct (negb (N.eqb eon (d_eon d))); [reflexivity|].
   destruct (negb (is_keyper (d_config d) sender)); [reflexivity|].
   destruct (check_receivers (d_config d) sender (d_evals d) receivers); reflexivity.
@@ -308,7 +388,7 @@ Lemma handle_poly_commitment_via_generated s sender eon gammas d :
                (code_ok, [EvPolyCommitment sender eon (map fst gammas)]).
 Proof.
   intros H1 H2. unfold handle_poly_commitment. rewrite H1, H2. cbn [negb].
-  rewrite gen_register_poly_commitment_agrees.
+  rewrite gen_register_poly_commitment_agrees. unfold poly_commitment_spec.
   destruct (negb (N.eqb eon (d_eon d))); [reflexivity|].
   destruct (negb (is_keyper (d_config d) sender)); [reflexivity|].
   destruct (mem_addr sender (d_commits d)); reflexivity.
@@ -321,7 +401,7 @@ Lemma handle_accusation_via_generated s sender eon accused d :
                (code_ok, [EvAccusation sender eon accused]).
 Proof.
   intros H1 H2 H3. unfold handle_accusation. rewrite H1, H2, H3. cbn [negb].
-  rewrite gen_register_accusation_agrees.
+  rewrite gen_register_accusation_agrees. unfold accusation_spec.
   destruct (negb (N.eqb eon (d_eon d))); [reflexivity|].
   destruct (negb (is_keyper (d_config d) sender)); [reflexivity|].
   destruct (negb (check_others (d_config d) sender accused)); [reflexivity|].
@@ -336,7 +416,7 @@ Lemma handle_apology_via_generated s sender eon accusers evals d :
                (code_ok, [EvApology sender eon accusers (map strip_zeros evals)]).
 Proof.
   intros H1 H2 H3 H4. unfold handle_apology. rewrite H1, H2, H3, H4. cbn [negb].
-  rewrite gen_register_apology_agrees.
+  rewrite gen_register_apology_agrees. unfold apology_spec.
   destruct (negb (N.eqb eon (d_eon d))); [reflexivity|].
   destruct (negb (is_keyper (d_config d) sender)); [reflexivity|].
   destruct (negb (check_others (d_config d) sender accusers)); [reflexivity|].
@@ -348,11 +428,10 @@ Qed.
 Lemma gen_register_poly_eval_refusal_inert d eon sender rs d' code :
   gen_register_poly_eval d eon sender rs = (d', Some code) -> d' = d.
 Proof.
-  unfold gen_register_poly_eval, find_first_idx. cbv zeta.
+  rewrite gen_register_poly_eval_shape.
   destruct (negb (N.eqb eon (d_eon d))); [intros [= <- _]; reflexivity|].
   destruct (negb (is_keyper (d_config d) sender)); [intros [= <- _]; reflexivity|].
-  rewrite poly_eval_search.
-  destruct (check_receivers (d_config d) sender (d_evals d) rs); cbn [option_map].
+  destruct (check_receivers (d_config d) sender (d_evals d) rs).
   - intros [= <- _]. reflexivity.
   - discriminate.
 Qed.
@@ -360,7 +439,7 @@ Qed.
 Lemma gen_register_poly_commitment_refusal_inert d eon sender d' code :
   gen_register_poly_commitment d eon sender = (d', Some code) -> d' = d.
 Proof.
-  rewrite gen_register_poly_commitment_agrees.
+  rewrite gen_register_poly_commitment_agrees. unfold poly_commitment_spec.
   destruct (negb (N.eqb eon (d_eon d))); [intros [= <- _]; reflexivity|].
   destruct (negb (is_keyper (d_config d) sender)); [intros [= <- _]; reflexivity|].
   destruct (mem_addr sender (d_commits d)); [intros [= <- _]; reflexivity|discriminate].
@@ -369,7 +448,7 @@ Qed.
 Lemma gen_register_accusation_refusal_inert d eon sender l d' code :
   gen_register_accusation d eon sender l = (d', Some code) -> d' = d.
 Proof.
-  rewrite gen_register_accusation_agrees.
+  rewrite gen_register_accusation_agrees. unfold accusation_spec.
   destruct (negb (N.eqb eon (d_eon d))); [intros [= <- _]; reflexivity|].
   destruct (negb (is_keyper (d_config d) sender)); [intros [= <- _]; reflexivity|].
   destruct (negb (check_others (d_config d) sender l)); [intros [= <- _]; reflexivity|].
@@ -379,7 +458,7 @@ Qed.
 Lemma gen_register_apology_refusal_inert d eon sender l d' code :
   gen_register_apology d eon sender l = (d', Some code) -> d' = d.
 Proof.
-  rewrite gen_register_apology_agrees.
+  rewrite gen_register_apology_agrees. unfold apology_spec.
   destruct (negb (N.eqb eon (d_eon d))); [intros [= <- _]; reflexivity|].
   destruct (negb (is_keyper (d_config d) sender)); [intros [= <- _]; reflexivity|].
   destruct (negb (check_others (d_config d) sender l)); [intros [= <- _]; reflexivity|].
@@ -388,14 +467,13 @@ Qed.
 
 (* an accepted Register*Msg changes exactly one "seen" set and nothing else *)
 Lemma poly_eval_fold_frame sender l : forall d0,
-  let d1 := fold_left (fun d1 receiver => mkDkg (d_config d1) (d_eon d1) (d_success d1)
-        (set_add pair_mem (d_evals d1) (sender, receiver)) (d_commits d1) (d_accs d1) (d_apos d1)) l d0 in
+  let d1 := fold_left (eval_write sender) l d0 in
   d_config d1 = d_config d0 /\ d_eon d1 = d_eon d0 /\ d_success d1 = d_success d0 /\
   d_commits d1 = d_commits d0 /\ d_accs d1 = d_accs d0 /\ d_apos d1 = d_apos d0.
 Proof.
   induction l as [|x t IH]; intros d0; cbn [fold_left]; [cbv zeta; repeat split; reflexivity|].
-  cbv zeta in *. specialize (IH (mkDkg (d_config d0) (d_eon d0) (d_success d0)
-        (set_add pair_mem (d_evals d0) (sender, x)) (d_commits d0) (d_accs d0) (d_apos d0))).
+  cbv zeta in *. specialize (IH (eval_write sender d0 x)).
+  unfold eval_write at 2 4 6 8 10 12 in IH.
   cbn [d_config d_eon d_success d_commits d_accs d_apos] in IH. exact IH.
 Qed.
 
@@ -404,42 +482,9 @@ Lemma gen_register_poly_eval_accept_frame d eon sender rs d' :
   d_config d' = d_config d /\ d_eon d' = d_eon d /\ d_success d' = d_success d /\
   d_commits d' = d_commits d /\ d_accs d' = d_accs d /\ d_apos d' = d_apos d.
 Proof.
-  unfold gen_register_poly_eval, find_first_idx. cbv zeta.
+  rewrite gen_register_poly_eval_shape.
   destruct (negb (N.eqb eon (d_eon d))); [discriminate|].
   destruct (negb (is_keyper (d_config d) sender)); [discriminate|].
-  rewrite poly_eval_search.
-  destruct (check_receivers (d_config d) sender (d_evals d) rs); cbn [option_map]; [discriminate|].
+  destruct (check_receivers (d_config d) sender (d_evals d) rs); [discriminate|].
   intros [= <-]. apply (poly_eval_fold_frame sender rs d).
-Qed.
-
-Lemma gen_register_poly_commitment_accept d eon sender d' :
-  gen_register_poly_commitment d eon sender = (d', None) ->
-  d' = mkDkg (d_config d) (d_eon d) (d_success d) (d_evals d) (d_commits d ++ [sender]) (d_accs d) (d_apos d).
-Proof.
-  rewrite gen_register_poly_commitment_agrees.
-  destruct (negb (N.eqb eon (d_eon d))); [discriminate|].
-  destruct (negb (is_keyper (d_config d) sender)); [discriminate|].
-  destruct (mem_addr sender (d_commits d)); [discriminate|]. intros [= <-]. reflexivity.
-Qed.
-
-Lemma gen_register_accusation_accept d eon sender l d' :
-  gen_register_accusation d eon sender l = (d', None) ->
-  d' = mkDkg (d_config d) (d_eon d) (d_success d) (d_evals d) (d_commits d) (d_accs d ++ [sender]) (d_apos d).
-Proof.
-  rewrite gen_register_accusation_agrees.
-  destruct (negb (N.eqb eon (d_eon d))); [discriminate|].
-  destruct (negb (is_keyper (d_config d) sender)); [discriminate|].
-  destruct (negb (check_others (d_config d) sender l)); [discriminate|].
-  destruct (mem_addr sender (d_accs d)); [discriminate|]. intros [= <-]. reflexivity.
-Qed.
-
-Lemma gen_register_apology_accept d eon sender l d' :
-  gen_register_apology d eon sender l = (d', None) ->
-  d' = mkDkg (d_config d) (d_eon d) (d_success d) (d_evals d) (d_commits d) (d_accs d) (d_apos d ++ [sender]).
-Proof.
-  rewrite gen_register_apology_agrees.
-  destruct (negb (N.eqb eon (d_eon d))); [discriminate|].
-  destruct (negb (is_keyper (d_config d) sender)); [discriminate|].
-  destruct (negb (check_others (d_config d) sender l)); [discriminate|].
-  destruct (mem_addr sender (d_apos d)); [discriminate|]. intros [= <-]. reflexivity.
 Qed.
